@@ -148,6 +148,11 @@ def universe(fam, n, variant='centred'):
         grid = [None] + [p for p in range(2 * n)]
         keys = [None] + grid[2::2][:n - 1]
         return keys, grid
+    if variant == 'K':           # instrumented keys (vt.kkey.K), object-keyed families only
+        assert kt == 'O'
+        from .kkey import K
+        grid = [K(p - n) for p in range(2 * n + 1)]
+        return grid[1::2], grid
     if variant == 'str':
         assert kt == 'O'
         grid = ['k%02d' % p for p in range(2 * n + 1)]
